@@ -255,10 +255,13 @@ def search_request():
 # ---------------------------------------------------------------------------------- dispatch
 def search_loop():
     n = 0
-    for in_table in (False, True):
-        for served in (False, True):
+    for in_table, served, elsewhere in itertools.product((False, True), repeat=3):
+        if True:
             n += 1
             a = acceptor(16384, [SOPS[0]] if served else [], TS[:1])
+            if elsewhere:
+                # the message's SOP class was accepted under another context id
+                a.sop_classes_as_scp[3] = (3, SOPS[0], TS[1])
             calls = []
 
             def svc(assoc, ctx, msg, calls=calls, a=a):
@@ -288,7 +291,8 @@ def search_loop():
                 if m is not msg:
                     fails.append('service-gets-the-message')
             if fails:
-                yield n, {'context_in_table': in_table, 'class_served': served}, fails
+                yield n, {'context_in_table': in_table, 'class_served': served,
+                          'class_accepted_under_another_id': elsewhere}, fails
     yield n, None, None
 
 
@@ -386,7 +390,7 @@ def main():
     elif 'update_context_def_list' in name or '_build_context_def_list' in name or 'ids' in req.get('what', ''):
         gen, bound = search_ids(), 'sequences of add calls with 0..128 classes, and 129/139/200 classes in one call'
     elif '_loop' in name:
-        gen, bound = search_loop(), 'context in table x class served'
+        gen, bound = search_loop(), 'context in table x class served x class accepted under another id'
     elif 'Requester' in name or 'get_scu' in name:
         gen, bound = search_request(), ('0..3 configured SOP classes x every reply pattern over (accept ts1, accept ts2, '
                                         'reject 1/3/4); 10x10 maximum-length grid')
